@@ -1,6 +1,6 @@
 (* C02 -- a granted placement has exactly the requested shape.  Statements only. *)
 From Coq Require Import ZArith List Bool.
-From RP Require Import Sched.Model Sched.NodeMap Sched.FindProofs Sched.Inv Sched.SchedProofs Sched.ShapeProofs.
+From RP Require Import Sched.Model Sched.NodeMap Sched.FindProofs Sched.Inv Sched.SchedProofs Sched.ShapeProofs Sched.ExclProofs.
 From Coq Require String.
 From RP Require AppSlots.Model AppSlots.Oracle AppSlots.NodeProofs AppSlots.InvProofs AppSlots.Proofs.
 Import ListNotations.
@@ -54,9 +54,56 @@ Proof.
 Qed.
 Print Assumptions C02_find_resources_slots.
 
+(* the `exclusive` rule of colocation tags: a task with a colocate tag not seen before and exclusive=True is,
+   as long as the pilot has more nodes than tagged ones, granted no slot on a node that an earlier tag uses --
+   in any state, for any offset, request shape and occupancy *)
+Theorem C02_exclusive_tag_avoids_tagged_nodes :
+  forall (c : cfg) (s : sstate) (t : req) off co tg (sl : list slot),
+    schedule_task c s t = inr (off, co, tg, Some sl) ->
+    forall tag, r_colo t = Some tag -> zlookup tag (colo s) = None -> r_excl t = true ->
+    (length (tagged s) < length (nodes s))%nat ->
+    forall x, In x sl -> zmem (s_node x) (tagged s) = false.
+Proof. exact exclusive_avoids_tagged. Qed.
+Print Assumptions C02_exclusive_tag_avoids_tagged_nodes.
+
+(* what a grant records: exactly its nodes under its tag, every other tag's record untouched, the tagged set
+   grown by exactly these nodes; a grant without a tag and a search that grants nothing record nothing *)
+Theorem C02_tag_recorded :
+  forall (c : cfg) (s : sstate) (t : req) off co tg (sl : list slot),
+    schedule_task c s t = inr (off, co, tg, Some sl) ->
+    forall tag, r_colo t = Some tag ->
+    zlookup tag co = Some (map s_node sl) /\
+    (forall tag', tag' <> tag -> zlookup tag' co = zlookup tag' (colo s)) /\
+    (forall i, zmem i tg = true <-> zmem i (tagged s) = true \/ In i (map s_node sl)).
+Proof. exact tag_recorded. Qed.
+Print Assumptions C02_tag_recorded.
+
+Theorem C02_untagged_or_failed_search_records_nothing :
+  forall (c : cfg) (s : sstate) (t : req) off co tg,
+    (forall sl, schedule_task c s t = inr (off, co, tg, Some sl) -> r_colo t = None -> co = colo s /\ tg = tagged s) /\
+    (schedule_task c s t = inr (off, co, tg, None) -> co = colo s /\ tg = tagged s).
+Proof.
+  intros c s t off co tg. split.
+  - intros sl H. exact (untagged_grant_keeps_history c s t off co tg sl H).
+  - exact (no_grant_keeps_history c s t off co tg).
+Qed.
+Print Assumptions C02_untagged_or_failed_search_records_nothing.
+
+(* two tags, the later one new and exclusive: whatever happened in between, as long as the nodes tagged by the
+   first grant are still in the tagged set and an untagged node exists, the two placements share no node *)
+Theorem C02_exclusive_tags_on_disjoint_nodes :
+  forall c s1 t1 off1 co1 tg1 sl1 s2 t2 off2 co2 tg2 sl2 a b,
+    schedule_task c s1 t1 = inr (off1, co1, tg1, Some sl1) -> r_colo t1 = Some a ->
+    (forall i, zmem i tg1 = true -> zmem i (tagged s2) = true) ->
+    schedule_task c s2 t2 = inr (off2, co2, tg2, Some sl2) -> r_colo t2 = Some b ->
+    zlookup b (colo s2) = None -> r_excl t2 = true ->
+    (length (tagged s2) < length (nodes s2))%nat ->
+    forall x y, In x sl1 -> In y sl2 -> s_node x <> s_node y.
+Proof. exact exclusive_tags_disjoint. Qed.
+Print Assumptions C02_exclusive_tags_on_disjoint_nodes.
+
 (* PARTIAL: placements supplied by the application are passed through as they
-   are (their shape is the application's); the exclusive-tag rule is modelled
-   and compared with the code but not stated as a theorem. *)
+   are (their shape is the application's). *)
 
 Example C02_nonvacuous :
   let s := init_state [mkNode 0 [Free; Busy; Free; Free] [Free; Free] 100 100;
